@@ -300,6 +300,52 @@ func structure(repo string) (string, error) {
 			}
 		}
 	}
+	// ---- publicip.GetPublicIP: providers asked in order; an error of one provider (whatever it is) moves on to the next,
+	// the first success is returned, and only when all failed an error is returned
+	firstSuccess := false
+	{
+		fset4 := token.NewFileSet()
+		f4, err := parser.ParseFile(fset4, filepath.Join(repo, "publicip/fetcher.go"), nil, 0)
+		if err != nil {
+			return "", err
+		}
+		for _, d := range f4.Decls {
+			fd, ok := d.(*ast.FuncDecl)
+			if !ok || fd.Name.Name != "GetPublicIP" || fd.Body == nil || len(fd.Body.List) != 2 {
+				continue
+			}
+			rs, ok := fd.Body.List[0].(*ast.RangeStmt)
+			last, ok2 := fd.Body.List[1].(*ast.ReturnStmt)
+			if !ok || !ok2 || len(last.Results) != 2 || exprString(last.Results[0]) != "nil" || exprString(last.Results[1]) == "nil" {
+				continue
+			}
+			if exprString(rs.X) != "ipCheckers" || len(rs.Body.List) != 3 {
+				continue
+			}
+			as, ok := rs.Body.List[0].(*ast.AssignStmt)
+			ifs, ok2 := rs.Body.List[1].(*ast.IfStmt)
+			ret, ok3 := rs.Body.List[2].(*ast.ReturnStmt)
+			if !ok || !ok2 || !ok3 || len(as.Lhs) != 2 || exprString(as.Lhs[1]) != "err" {
+				continue
+			}
+			if !isErrNotNil(ifs.Cond) || ifs.Else != nil || ifs.Init != nil || len(ifs.Body.List) == 0 {
+				continue
+			}
+			// the error block may log, and must end in `continue` without returning or breaking
+			okBlock := true
+			for i, st := range ifs.Body.List {
+				if i == len(ifs.Body.List)-1 {
+					br, ok := st.(*ast.BranchStmt)
+					okBlock = okBlock && ok && br.Tok == token.CONTINUE
+				} else if es, ok := st.(*ast.ExprStmt); !ok || !strings.HasPrefix(exprString(es.X), "log.") {
+					okBlock = false
+				}
+			}
+			if okBlock && len(ret.Results) == 2 && exprString(ret.Results[0]) == exprString(as.Lhs[0]) && exprString(ret.Results[1]) == "nil" {
+				firstSuccess = true
+			}
+		}
+	}
 	var b strings.Builder
 	b.WriteString("(** GENERATED on every run by tools/goextract (structure.go) from /repo/sack/sack_driver.go, result/result.go and\n    traceroute/traceroute.go.  Do not edit. *)\n")
 	b.WriteString("From Coq Require Import ZArith List.\nFrom TR Require Import Lib.Shapes.\nImport ListNotations.\nOpen Scope Z_scope.\n\n")
@@ -319,6 +365,8 @@ func structure(repo string) (string, error) {
 	fmt.Fprintf(&b, "Definition redact_keeps_only_ttl : bool := %v. (* fields of a redacted hop that keep their value: %s *)\n", redactShape && !keptBad && len(redactKept) == 1, strings.Join(redactKept, " "))
 	fmt.Fprintf(&b, "\n(** RunTraceroute: a failed multi-query run returns (nil, err); then, in this order, the post-processing steps with their guards *)\n")
 	fmt.Fprintf(&b, "Definition run_error_returns_no_result : bool := %v.\n", errNil)
+	fmt.Fprintf(&b, "\n(** GetPublicIP: the providers are asked in order, any error of one moves on to the next, the first success is returned *)\n")
+	fmt.Fprintf(&b, "Definition publicip_first_success_loop : bool := %v.\n", firstSuccess)
 	fmt.Fprintf(&b, "Definition run_pipeline_order : list (pguard * pstep) := [%s].\n", strings.Join(pipe, "; "))
 	return b.String(), nil
 }
